@@ -280,9 +280,11 @@ class PCovR(_BasePCA, LinearModel):
             W = self.regressor_.coef_.T.reshape(X.shape[1], -1)
             Yhat = self.regressor_.predict(X).reshape(X.shape[0], -1)
         else:
-            Yhat = Y.copy()
+            Yhat = Y.copy().reshape(X.shape[0], -1)
             if W is None:
                 W = np.linalg.lstsq(X, Yhat, self.tol)[0]
+            else:
+                W = W.reshape(X.shape[1], -1)
 
         # Handle svd_solver
         self.fit_svd_solver_ = self.svd_solver
